@@ -467,7 +467,9 @@ def run_translator(ctx: Ctx, units):
     except Exception:  # noqa: BLE001
         pass
     for u in units:
-        uok = ok and info.get(u, {}).get("ok", False)
+        # per unit: one unit failing closed does not make the others' translation obligations fail
+        # (py2v exits 1 as soon as any unit fails); no parsable report at all = every unit failed
+        uok = bool(info.get(u, {}).get("ok", False))
         ctx.obligation(f"translation:{u}", uok, info.get(u, {}).get("note", err[-300:] if not ok else ""))
         if not uok:
             ctx.broken("translation", f"translation:{u}",
